@@ -37,9 +37,70 @@ TIERS = {
     "san": (["clang-14"], ["-O1", "-g", "-std=c11", "-fsanitize=address,undefined", "-fno-sanitize=alignment",
                            "-fno-sanitize-recover=undefined", "-fno-omit-frame-pointer"]),
     "tsan": (["clang-14"], ["-O1", "-g", "-std=c11", "-fsanitize=thread"]),
-    "simd": (["gcc"], ["-O2", "-g", "-DNDEBUG", "-std=c11", "-O3", "-fPIC", "-mavx2",
-                       "-mavx512f", "-mavx512vl", "-mf16c"]),
+    # the sources also compile at the older language level that many embedders still use (-std=gnu99 replaces
+    # every other -std flag in build_driver): _Thread_local, _Alignas, _Atomic do not exist there
+    "c99": (["gcc"], ["-O2", "-g", "-DNDEBUG", "-mtune=native", "-O3", "-fPIC"]),
+    # + isa_flags(): every instruction-set macro the sources test (on the pinned tree: -mavx2 -mavx512f
+    # -mavx512vl -mf16c -msse4.1), added in build_driver
+    "simd": (["gcc"], ["-O2", "-g", "-DNDEBUG", "-std=c11", "-O3", "-fPIC"]),
 }
+
+
+# instruction-set macros a source file may test -> the compiler flag that defines them (and the /proc/cpuinfo
+# flag of a host that can run the result).  __SSE2__ is on by default on x86-64.
+ISA = {"__AVX__": ("-mavx", "avx"), "__AVX2__": ("-mavx2", "avx2"), "__AVX512F__": ("-mavx512f", "avx512f"),
+       "__AVX512VL__": ("-mavx512vl", "avx512vl"), "__AVX512BW__": ("-mavx512bw", "avx512bw"),
+       "__AVX512DQ__": ("-mavx512dq", "avx512dq"), "__BMI__": ("-mbmi", "bmi1"), "__BMI2__": ("-mbmi2", "bmi2"),
+       "__F16C__": ("-mf16c", "f16c"), "__SSE3__": ("-msse3", "pni"), "__SSSE3__": ("-mssse3", "ssse3"),
+       "__SSE4_1__": ("-msse4.1", "sse4_1"), "__SSE4_2__": ("-msse4.2", "sse4_2"), "__LZCNT__": ("-mlzcnt", "abm"),
+       "__POPCNT__": ("-mpopcnt", "popcnt"), "__FMA__": ("-mfma", "fma"), "__PCLMUL__": ("-mpclmul", "pclmulqdq"),
+       "__ADX__": ("-madx", "adx")}
+_isa_re = re.compile(r"__(?:AVX[0-9A-Z]*|BMI2?|F16C|SSS?E[0-9_]*|LZCNT|POPCNT|FMA|PCLMUL|ADX)__")
+
+
+def _host_flags():
+    try:
+        with open("/proc/cpuinfo") as f:
+            for ln in f:
+                if ln.startswith("flags"):
+                    return set(ln.split(":", 1)[1].split())
+    except OSError:
+        pass
+    return set()
+
+
+def isa_flags(files=None):
+    """Compiler flags that switch on every instruction-set-specific path the tree under test contains (mined from
+    the sources: #if defined(__AVX2__), __BMI2__, __F16C__ ...), as far as this host can execute them.  `files`
+    restricts the search to some $REPO/src files (.c and .h of the same stem, plus varint.h)."""
+    sd = os.path.join(REPO, "src")
+    names = sorted(os.listdir(sd))
+    if files is not None:
+        stems = {os.path.splitext(f)[0] for f in files}
+        names = [n for n in names if os.path.splitext(n)[0] in stems or n == "varint.h"]
+    macros = set()
+    for n in names:
+        p = os.path.join(sd, n)
+        if os.path.isfile(p) and n.endswith((".c", ".h")):
+            with open(p, errors="replace") as f:
+                macros.update(_isa_re.findall(f.read()))
+    host = _host_flags()
+    out = []
+    for m in sorted(macros):
+        if m in ISA and ISA[m][1] in host:
+            out.append(ISA[m][0])
+    # the tree's AVX2 paths use AVX-512VL intrinsics (_mm256_min_epu64): they only compile with these as well
+    if "-mavx2" in out:
+        for extra, hf in (("-mavx512f", "avx512f"), ("-mavx512vl", "avx512vl")):
+            if hf in host and extra not in out:
+                out.append(extra)
+    return out
+
+
+def isa_tier(files):
+    """["simd"] when the given library files contain instruction-set-specific paths that the default build does
+    not compile (so that a check gains the tier exactly when there is something to run in it), else []."""
+    return ["simd"] if isa_flags(files) else []
 
 
 class Broken(Exception):
@@ -97,6 +158,8 @@ def build_driver(name, tier, lib, extra_flags=(), extra_src=(), libs=("-lm",)):
     if os.path.exists(out):
         return out
     cc, flags = TIERS[tier]
+    if tier == "simd":
+        flags = flags + isa_flags()
     if COVERAGE and cc[0] == "gcc":
         # tools/covaudit.py: which library lines do the drivers reach?  -O0 keeps the line attribution exact
         flags = [f for f in flags if f not in ("-O2", "-O3")] + ["-O0", "--coverage"]
@@ -104,6 +167,8 @@ def build_driver(name, tier, lib, extra_flags=(), extra_src=(), libs=("-lm",)):
     srcs += [os.path.join(REPO, "src", s) for s in lib]
     tmp = out + ".tmp%d" % os.getpid()
     cmd = cc + flags + ["-D" + GUARD, "-w", "-I" + os.path.join(REPO, "src"), "-I" + HARN]
+    if tier == "c99":
+        extra_flags = [f for f in extra_flags if not f.startswith("-std=")] + ["-std=gnu99"]
     cmd += list(extra_flags) + srcs + ["-o", tmp] + list(libs)
     r = subprocess.run(cmd, capture_output=True, text=True)
     if r.returncode != 0:
